@@ -94,7 +94,7 @@ func suiteSerde(rn *runner, r *rng, tier string) {
 		}
 		m1, m2 := modes[cr.intn(4)], modes[cr.intn(4)]
 		nextSerde = serdeOpts{m1: m1, m2: m2}
-		reuseKind := cr.intn(3)
+		reuseKind := cr.intn(5)
 		if repetitive {
 			if m1 == simdjson.CompressNone {
 				m1 = simdjson.CompressDefault
@@ -108,6 +108,58 @@ func suiteSerde(rn *runner, r *rng, tier string) {
 			nextSerde.s1, nextSerde.s2 = sA, sB
 		}
 		if reuseKind == 2 {
+			nextSerde.dst = dstReuse
+		}
+		if reuseKind == 3 {
+			// a destination that Parse produced (copied strings: its string buffer is not empty), as when one object is
+			// recycled for parsing and for deserializing
+			if d, err := simdjson.Parse([]byte(`{"key one":"a string value","k2":["abc",1,2.5,"\u00e9"],"n":null}`), nil); err == nil {
+				nextSerde.dst = d
+			}
+		}
+		if reuseKind == 4 && dstReuse != nil {
+			// an earlier result of Deserialize that was edited in place since (SetString appends to its string buffer)
+			it := dstReuse.Iter()
+			for it.Advance() != simdjson.TypeNone {
+				var el simdjson.Iter
+				if t, _, err := it.Root(&el); err == nil && t != simdjson.TypeNone {
+					func() {
+						defer func() { recover() }()
+						var walk func(i *simdjson.Iter, depth int) bool
+						walk = func(i *simdjson.Iter, depth int) bool {
+							switch i.Type() {
+							case simdjson.TypeString, simdjson.TypeInt, simdjson.TypeUint, simdjson.TypeFloat:
+								return i.SetString("edited since it was deserialized") == nil
+							case simdjson.TypeArray:
+								if a, err := i.Array(nil); err == nil && depth < 4 {
+									ai := a.Iter()
+									for ai.Advance() != simdjson.TypeNone {
+										if walk(&ai, depth+1) {
+											return true
+										}
+									}
+								}
+							case simdjson.TypeObject:
+								if o, err := i.Object(nil); err == nil && depth < 4 {
+									var e simdjson.Iter
+									for {
+										_, t, err := o.NextElement(&e)
+										if err != nil || t == simdjson.TypeNone {
+											break
+										}
+										if walk(&e, depth+1) {
+											return true
+										}
+									}
+								}
+							}
+							return false
+						}
+						walk(&el, 0)
+					}()
+				}
+				break
+			}
 			nextSerde.dst = dstReuse
 		}
 		out := c.emit("serde q p")
@@ -375,14 +427,19 @@ func suiteBlob(rn *runner, r *rng, tier string) {
 				s := simdjson.NewSerializer()
 				s.CompressMode(simdjson.CompressNone)
 				blob = s.Serialize(nil, *pj)
-				switch cr.intn(3) {
+				switch cr.intn(5) {
 				case 0:
 					blob = blob[:cr.intn(len(blob)+1)]
 				case 1:
 					blob[cr.intn(len(blob))] = byte(cr.intn(256))
-				default:
+				case 2:
 					k := cr.intn(len(blob))
 					blob = append(blob[:k], blob[k+1:]...)
+				default:
+					// varint surgery: one size field of the intact framing replaced by an extreme value — block sizes and
+					// the total by anything up to 2^64-1 and by over-long encodings (they are compared with what is left,
+					// never allocated), declared section sizes by small extremes only (the property's scope)
+					blob = varintSurgery(cr, blob)
 				}
 				// keep only blobs whose blocks are uncompressed or of unknown type: the model has no codec
 			}
@@ -492,4 +549,69 @@ func sectionsOf(pj *simdjson.ParsedJson) (ts uint64, msg, tags, vals []byte) {
 	vl := rdv()
 	vals = blk(vl)
 	return
+}
+
+// varintSurgery replaces one varint of an uncompressed serialization by an extreme value. Field order: total, tape size,
+// strings size, [block size, block], message size, [block size, block], tags size, [block size, block], values size,
+// [block size, block].
+func varintSurgery(cr *rng, b []byte) []byte {
+	type field struct {
+		at, n int
+		alloc bool // a declared size that Deserialize allocates
+	}
+	var fs []field
+	p := 1
+	rd := func(alloc bool) (uint64, bool) {
+		if p >= len(b) {
+			return 0, false
+		}
+		v, n := binary.Uvarint(b[p:])
+		if n <= 0 {
+			return 0, false
+		}
+		fs = append(fs, field{p, n, alloc})
+		p += n
+		return v, true
+	}
+	if _, ok := rd(false); !ok {
+		return b
+	}
+	if _, ok := rd(true); !ok { // tape size
+		return b
+	}
+	for k := 0; k < 4; k++ {
+		if _, ok := rd(true); !ok {
+			break
+		}
+		sz, ok := rd(false)
+		if !ok || sz > uint64(len(b)-p) {
+			break
+		}
+		p += int(sz)
+	}
+	if len(fs) == 0 {
+		return b
+	}
+	f := fs[cr.intn(len(fs))]
+	var enc []byte
+	if f.alloc {
+		v := []uint64{0, 1, 2, 127, 128, 255, 256, 65535, 65536}[cr.intn(9)]
+		enc = binary.AppendUvarint(nil, v)
+	} else {
+		switch cr.intn(4) {
+		case 0: // over-long / overflowing encodings
+			enc = [][]byte{
+				{0x80, 0x80, 0x80, 0x80, 0x80, 0x80, 0x80, 0x80, 0x80, 0x80, 0x01},
+				{0xff, 0xff, 0xff, 0xff, 0xff, 0xff, 0xff, 0xff, 0xff, 0x02},
+				{0xff, 0xff, 0xff, 0xff, 0xff, 0xff, 0xff, 0xff, 0xff, 0x7f},
+				{0x80, 0x00},
+			}[cr.intn(4)]
+		default:
+			base := []uint64{0, 1, 2, 1 << 31, 1 << 32, 1 << 56, 1<<63 - 1, 1 << 63, 1<<63 + 1, ^uint64(0) - 1, ^uint64(0), uint64(len(b)), uint64(len(b) - f.at)}[cr.intn(13)]
+			enc = binary.AppendUvarint(nil, base+uint64(cr.intn(3))-1)
+		}
+	}
+	out := append([]byte(nil), b[:f.at]...)
+	out = append(out, enc...)
+	return append(out, b[f.at+f.n:]...)
 }
